@@ -33,6 +33,15 @@ Next == Open \/ Execute \/ ExecuteFail \/ FetchOne \/ FetchMany \/ FetchManyDefa
 \* candidate successor there, so exactly one line per walk)
 WalkEnd == Len(hist) = Depth /\ PrintT(<<"B", ToJson(hist)>>) /\ hist' = Append(hist, [k |-> "end"]) /\ UNCHANGED <<st, deliv>>
 NextWalk == (Len(hist) < Depth /\ Next) \/ WalkEnd
+\* the same walks with one disjunct per public call: -simulate first picks a disjunct, then one of its successors, so a walk is
+\* not dominated by the call with the most argument combinations (execute: rows x shapes x channels).  A successful SELECT
+\* is listed three times: fetching is only interesting while there is a result set
+Upto(A) == Len(hist) < Depth /\ A
+ExecSelect == \E op \in {o \in Ops(st) : o.k = "exec"} : Do(op)
+ExecOther  == \E op \in {o \in Ops(st) : o.k \in {"dml", "reshape"}} : Do(op)
+NextWalkByCall == Upto(Open) \/ Upto(ExecSelect) \/ Upto(ExecSelect) \/ Upto(ExecSelect) \/ Upto(ExecOther) \/ Upto(ExecuteFail)
+                  \/ Upto(FetchOne) \/ Upto(FetchMany) \/ Upto(FetchManyDefault) \/ Upto(FetchAll) \/ Upto(FetchPandasAll)
+                  \/ Upto(SetArraysize) \/ Upto(ReadDescription) \/ WalkEnd
 Spec == Init /\ [][Next]_vars
 
 \* ---- C05 on the model ----
